@@ -27,6 +27,8 @@ type c20Op struct {
 	Name string `json:"name,omitempty"`
 	Val  string `json:"val,omitempty"`  // Set value
 	Text string `json:"text,omitempty"` // word / expression source
+	// Inner: for Kind "expand" with a composite word: the expansion that forms the word of ${Name Val Inner}
+	Inner string `json:"inner,omitempty"`
 }
 
 func (o c20Op) String() string {
@@ -140,6 +142,48 @@ func (m *c20Model) apply(o c20Op) int {
 			v = strings.Join(m.args[1:], " ")
 		}
 		null := v == ""
+		if o.Inner != "" {
+			// ${n op INNER}: the word is expanded only when it is used; its own store effect and failure come first
+			used := !set || null && strings.HasPrefix(o.Val, ":")
+			if o.Val == ":+" {
+				used = set && !null
+			}
+			if !used {
+				return 0
+			}
+			bv, bset := m.vars["b"]
+			val, innerFail := "", false
+			switch o.Inner {
+			case "${b:=w}":
+				if !bset || bv == "" {
+					m.vars["b"] = "w"
+				}
+				val = m.vars["b"]
+			case "${b?m}":
+				innerFail = !bset
+				val = bv
+			case "$((1/0))":
+				innerFail = true
+			case "$((b=3))":
+				m.vars["b"] = "3"
+				val = "3"
+			case "${b:-w}":
+				val = bv
+				if !bset || bv == "" {
+					val = "w"
+				}
+			}
+			switch {
+			case innerFail:
+				return 1
+			case o.Val == ":=" || o.Val == "=":
+				m.vars[o.Name] = val
+				return 0
+			case o.Val == ":?" || o.Val == "?":
+				return 1
+			}
+			return 0
+		}
 		switch o.Val {
 		case ":=", "=":
 			if !set || null && o.Val == ":=" {
@@ -307,6 +351,12 @@ func c20Ops() []c20Op {
 			ops = append(ops, c20Op{Kind: "expand", Name: n, Val: op, Text: text})
 		}
 	}
+	// composite words: the word of the operator is itself an expansion that assigns, fails or does neither
+	for _, op := range []string{":-", "-", ":=", ":?", "?", ":+"} {
+		for _, inner := range []string{"${b:=w}", "${b?m}", "$((1/0))", "$((b=3))", "${b:-w}"} {
+			ops = append(ops, c20Op{Kind: "expand", Name: "a", Val: op, Inner: inner, Text: "${a" + op + inner + "}"})
+		}
+	}
 	// pattern removal applied to the positional parameters (must not write through to Args)
 	for _, t := range [][2]string{{"${@%q}", "@"}, {"${@#p}", "@"}, {"${@%%?}", "@"}, {"${*#p}", "*"}, {"${1%p}", "1"}, {"\"${@%q}\"", "@"}} {
 		ops = append(ops, c20Op{Kind: "expand", Name: t[1], Val: "%", Text: t[0]})
@@ -450,7 +500,7 @@ func c20Run(w *W) {
 	red = append(red, c20Op{Kind: "set", Name: "a", Val: "x"}, c20Op{Kind: "set", Name: "IFS", Val: ":"}, c20Op{Kind: "unset", Name: "IFS"})
 	for _, o := range ops {
 		switch {
-		case o.Kind == "expand" && (o.Text == "${a:=w}" || o.Text == "${a}" || o.Text == "${b=w}" || o.Text == "${@%q}" || o.Text == "${1:-w}"):
+		case o.Kind == "expand" && (o.Text == "${a?${b?m}}" || o.Text == "${a:?${b:=w}}" || o.Text == "${a:=${b?m}}" || o.Text == "${a:=w}" || o.Text == "${a}" || o.Text == "${b=w}" || o.Text == "${@%q}" || o.Text == "${1:-w}"):
 			red = append(red, o)
 		case o.Kind == "eval" && o.Name == "a" && (o.Val == "n=1" || o.Val == "n++" || o.Val == "m=n=2" || o.Val == "n=08" || o.Val == "n=0?08:5"):
 			red = append(red, o)
@@ -500,7 +550,7 @@ func init() {
 		id:    "C20",
 		level: "model_checking",
 		rule: "explicit-state BFS to depth 4 (quick) / 6 (thorough) from 8 initial environments (Args ∈ {sh; sh p q; 11 positionals; one empty positional} × Opts ∈ {0, nounset}); " +
-			"alphabet ≈ 200 operations: Set/Unset on ordinary, special and positional names, Expand of ${n op w} for 9 operator forms and 10 parameter kinds, pattern removal on $@/$*/$1, Eval of 15 assigning/faulting/short-circuit forms; " +
+			"alphabet ≈ 245 operations: Set/Unset on ordinary, special and positional names, Expand of ${n op w} for 9 operator forms and 10 parameter kinds, pattern removal on $@/$*/$1, 30 composite forms ${a op INNER} whose word assigns, fails or does neither, Eval of 15 assigning/faulting/short-circuit forms; " +
 			"every transition is taken from every distinct reachable state; second phase without state merging: every history of ≤ 4 (thorough 5) operations over a reduced alphabet of ≈ 20 operations in which the observation (Walk, Get, Args) is itself an operation; distinct_nontrivial = distinct reachable store states other than the initial one",
 		assume: []string{"map model in c20.go; process environment cleared so that NewExecEnv starts from {IFS}",
 			"canonical state = sorted (name,value) of Walk + Args + Opts: Export/ReadOnly flags are not observed by any operation of the alphabet, so merged states have equal futures",
